@@ -51,7 +51,7 @@ func proofToHashRef(gamma verif.BV) []byte {
 
 // RFC 9381 5.3 ECVRF_verify (with 5.4.5 key validation), both challenge formats.
 //
-//verif:ob prop=C15,C19 name=Verify_vs_RFC9381 mode=bv tags=purego use=gapi split=v10:0..1;np:0+79..81+160;na:0..2;nk:32 tsplit=v10:0..1;np:0..170;na:0..2;nk:32
+//verif:ob prop=C15,C19,C18 name=Verify_vs_RFC9381 mode=bv tags=purego use=gapi split=v10:0..1;np:0+79..81+160;na:0..2;nk:32 tsplit=v10:0..1;np:0..170;na:0..2;nk:32 sharedro=1
 func vh_C15_verify() {
 	v10, np, na, nk := verif.Case("v10") == 1, verif.Case("np"), verif.Case("na"), verif.Case("nk")
 	pk := make([]byte, nk)
